@@ -24,6 +24,14 @@ CHECKS = {
    text="The dof-numbering and row/column index functions (_Get_assembly_e, Get_rows_e, Get_columns_e) are extracted and executed on symbolic-size integer arrays: postconditions proved by z3 for an unbounded number of elements and arbitrary connectivity, for every nodes-per-element of a supported type and dofs-per-node; Assembly() slot order on a recording receiver; row-major and permutation lemmas. The scipy-backed CSR slot map is covered by bounded run-time contract checks of the real Assembly() against a dense scatter-add (mixed groups, None slots, complex data, cached-map reuse) -- labelled bounded, not counted as proved.",
    note="Trusted: vt/lam.py numpy model for symbolic-size arrays, mathematical integers, z3. Assumed (only cross-checked on bounded cases): scipy COO->CSR, sort_indices, searchsorted, bincount contracts. MPI_SIZE == 1.",
    technique="contract-based deductive verification: VCs over integers/uninterpreted connectivity generated by symbolic execution of the extracted index functions, discharged by z3; bounded run-time contracts for the scipy-backed slot map"),
+ "C01": dict(level="other", design="DESIGN.md 3/C01",
+   text="Closed-form Det/Inv/Trace and the placement of the strain-displacement operator are proved for all values (ring identities on the extracted source). The isoparametric pipeline and element operators are the real functions run natively on exact field elements on star patches of every element type (interior vertex node, affine exact-rational geometry, symbolic gradient and offset): gradients are exactly G and interior residuals vanish within 2^-40. The full Solve() and post-processing are exercised natively in floats per element type as a bounded run-time contract.",
+   note="Bounded: one star patch per type; isotropic law; external sparse solver, assembly (C03) and elimination (C04) by contract. numpy model vt/npshim.py and the patches of vt/symrun.py are trusted. X-tier obligations are sampled native runs, not proof.",
+   technique="contract-based verification: ring identities on extracted closed-form code (proved) + bounded symbolic execution of the real pipeline on exact values (bounded stand-in) + run-time contracts on native solves"),
+ "C02": dict(level="other", design="DESIGN.md 3/C02",
+   text="Real element operators run natively on exact values on 2-element conforming patches of all 19 element types: congruence form sum wJ B^T C B (PSD structure), symmetry and kernel inclusion as exact identities; no spurious mode and SPD mass as exact ranks (rank of the image in F_p as sound lower bound matched by the exact kernel upper bound), total mass within 2^-40.",
+   note="Bounded: 2-element patches (the smallest meshes of the quantifier), one isotropic law / conductivity; Gauss points are the code's floats read exactly; beams not covered. Known finding: TRI15 mass.",
+   technique="contract-based verification, bounded stand-in: symbolic/exact execution of the real operators against postconditions (identities and exact ranks)"),
 }
 NOT_APPLICABLE = {
 }
